@@ -113,6 +113,13 @@ func (l *_LexerStateMachine) PushRune(r rune) int {
 	// Move 'i' to the beginning of the actions section.
 	i += gotoN * 3
 
+	if !l.pending {
+		// Nothing has been consumed since the last token, so these are the actions
+		// of a rule that matches the empty string. Running them would produce an
+		// empty token (or discard nothing) without making progress, forever.
+		i = end
+	}
+
 	for ; i < end; i += 2 {
 		switch mode[i] {
 		case 1: // PushMode
